@@ -92,11 +92,18 @@ def fork_cases():
                {"e": "burst", "b": 100000}] + [{"e": "deliver"}] * 40
         cases.append(({"sm": "file", "rm": "file", "sf": True, "rf": False, "sb": 16, "rb": 16}, evs,
                       {"kind": "fork-bad" if bad else "fork"}))
-    # D66: the follower's own fork dump is under way when a complete snapshot from the leader is installed
-    evs = [{"e": "sndInstall", "d": "0102030405060708"}, {"e": "rcvSerialize", "id": 3, "n": 2}, {"e": "burst", "b": 100000}] + \
-          [{"e": "deliver"}] * 4 + [{"e": "rcvChildRun"}, {"e": "rcvCheck"}, {"e": "rcvSerialize", "id": 8, "n": 3},
-                                    {"e": "rcvChildRun"}, {"e": "rcvCheck"}]
-    cases.append(({"sm": "memory", "rm": "file", "sf": False, "rf": True, "sb": 4, "rb": 4}, evs, {"kind": "fork-install-over-own-dump"}))
+    # D66: the follower's own fork dump is started (a) before the first chunk, (b) between chunks, (c) right before
+    # the last chunk of a complete snapshot from the leader; the install must leave no child behind in each case
+    tail = [{"e": "rcvChildRun"}, {"e": "rcvCheck"}, {"e": "rcvSerialize", "id": 8, "n": 3}, {"e": "rcvChildRun"}, {"e": "rcvCheck"}]
+    own = {"e": "rcvSerialize", "id": 3, "n": 2}
+    for pos in (0, 1, 2):        # 8 bytes in chunks of 4 = 3 deliveries (two data chunks and the empty last one)
+        evs = [{"e": "sndInstall", "d": "0102030405060708"}, {"e": "burst", "b": 100000}]
+        for i in range(3):
+            if i == pos:
+                evs.append(dict(own))
+            evs.append({"e": "deliver"})
+        cases.append(({"sm": "memory", "rm": "file", "sf": False, "rf": True, "sb": 4, "rb": 4}, evs + [dict(e) for e in tail],
+                      {"kind": "fork-install-over-own-dump"}))
     return cases
 
 
